@@ -98,6 +98,7 @@ STATEFUL = {"EpistemicUncertaintySampling[precompute]": 14, "EpistemicUncertaint
 def explore(ctx, per_spec, sizes):
     rng = ctx.rng
     lines, checks = [], []
+    dense_done, dense_budget = 0, 10**9
     for spec in pool_specs():
         mult = STATEFUL.get(spec.name, 1)
         for _ in range(per_spec * mult):
@@ -115,6 +116,18 @@ def explore(ctx, per_spec, sizes):
             seed = rng.randrange(10**6)
             case = dict(spec=spec.name, n=n, flavour=flavour, n_labeled=n_lab, b=int(b), oracle=oracle, seed=seed,
                         X=data["X"], y=data["y"], y_true=data["y_true"])
+            evaluate(ctx, spec, data, case, lines, checks)
+        if dense_done < dense_budget:
+            # the last cycles of a run on a large dense pool: about two hundred labeled samples on top of each other (seed R12I02)
+            dense_done += 1
+            nrs = np.random.RandomState(rng.randrange(2**31 - 1))
+            n = rng.randint(185, 230)
+            u = rng.randint(3, 7)
+            flavour = rng.choice(["all_equal", "all_equal", "all_equal", "duplicates", "grid"])
+            data = make_data(nrs, n, spec.kind, flavour, n_labeled=n - u, classes=spec.classes or (0, 1, 2))
+            case = dict(spec=spec.name, n=n, flavour=flavour, n_labeled=n - u, b=int(rng.choice([1, 2, 3])), oracle="true", seed=rng.randrange(10**6),
+                        X=data["X"], y=data["y"], y_true=data["y_true"])
+            ctx.count("dense_large_pool_loops")
             evaluate(ctx, spec, data, case, lines, checks)
         if spec.skeleton == "B":
             # the last cycles of a run on a larger pool (distinct points, several labels, few unlabeled samples left, batch of
